@@ -13,6 +13,17 @@ fn norm(ts: impl ToTokens) -> String {
     ts.to_token_stream().to_string().replace(' ', "")
 }
 
+/// the Lean pattern for a Rust variant: `Ok` -> `.ok`, `Some(true)` -> `some true`, `None` -> `none`
+fn lean_pat(v: &str) -> String {
+    match v {
+        "Some(true)" => "some true".into(),
+        "Some(false)" => "some false".into(),
+        "None" => "none".into(),
+        "Some" => "some ()".into(),
+        other => format!(".{}", lower_first(other)),
+    }
+}
+
 fn lower_first(s: &str) -> String {
     let mut c = s.chars();
     match c.next() {
@@ -68,10 +79,20 @@ impl<'ast> Visit<'ast> for Matches<'ast> {
 }
 
 /// does the pattern cover `Enum::Variant`? (`_`, a bare binding, `A | B`, `Path::Variant(..)`)
-fn covers(pat: &Pat, variant: &str) -> bool {
+pub fn covers(pat: &Pat, variant: &str) -> bool {
+    if variant.contains('(') {
+        // a variant with a literal payload, e.g. `Some(true)`: compare the pattern text
+        return match pat {
+            Pat::Wild(_) => true,
+            Pat::Or(o) => o.cases.iter().any(|p| covers(p, variant)),
+            Pat::Paren(p) => covers(&p.pat, variant),
+            other => norm(other) == variant,
+        };
+    }
     match pat {
         Pat::Wild(_) => true,
-        Pat::Ident(i) => i.subpat.is_none() && i.ident.to_string().chars().next().map(|c| c.is_lowercase()).unwrap_or(false),
+        // a bare identifier is a binding (covers everything) unless it is a unit variant such as `None`
+        Pat::Ident(i) => i.subpat.is_none() && (i.ident == variant || i.ident.to_string().chars().next().map(|c| c.is_lowercase()).unwrap_or(false)),
         Pat::Or(o) => o.cases.iter().any(|p| covers(p, variant)),
         Pat::Path(p) => p.path.segments.last().map(|s| s.ident == variant).unwrap_or(false),
         Pat::TupleStruct(t) => t.path.segments.last().map(|s| s.ident == variant).unwrap_or(false),
@@ -82,20 +103,20 @@ fn covers(pat: &Pat, variant: &str) -> bool {
 }
 
 /// the first `match` in the function whose arms mention `marker` in a pattern
-fn match_mentioning<'a>(block: &'a syn::Block, marker: &str) -> Option<&'a ExprMatch> {
+pub fn match_mentioning<'a>(block: &'a syn::Block, marker: &str) -> Option<&'a ExprMatch> {
     let mut v = Matches { found: vec![] };
     v.visit_block(block);
     v.found.into_iter().find(|m| m.arms.iter().any(|a| norm(&a.pat).contains(marker)))
 }
 
 /// classify an arm body by the first of the given (token, class) pairs it contains
-fn classify(body: &Expr, classes: &[(&str, &str)]) -> Option<String> {
+pub fn classify(body: &Expr, classes: &[(&str, &str)]) -> Option<String> {
     let t = norm(body);
     classes.iter().find(|(tok, _)| t.contains(tok)).map(|(_, c)| c.to_string())
 }
 
 #[allow(clippy::too_many_arguments)]
-fn emit_table(src: &mut Sources, out: &mut Out, s: &mut String, sel: &FnSel, marker: &str, dom: &str, variants: &[String], lean_name: &str, ty: &str, classes: &[(&str, &str)], doc: &str) {
+pub fn emit_table(src: &mut Sources, out: &mut Out, s: &mut String, sel: &FnSel, marker: &str, dom: &str, variants: &[String], lean_name: &str, ty: &str, classes: &[(&str, &str)], doc: &str) {
     let file = match src.file(sel.file) {
         Ok(f) => f,
         Err(e) => {
@@ -125,7 +146,7 @@ fn emit_table(src: &mut Sources, out: &mut Out, s: &mut String, sel: &FnSel, mar
     for v in variants {
         match m.arms.iter().find(|a| a.guard.is_none() && covers(&a.pat, v)) {
             Some(a) => match classify(&a.body, classes) {
-                Some(c) => s.push_str(&format!("  | .{} => .{}\n", lower_first(v), c)),
+                Some(c) => s.push_str(&format!("  | {} => .{}\n", lean_pat(v), c)),
                 None => out.errors.push(format!("{:?}: arm `{}` fits none of the classes {:?}", sel, norm(&a.pat), classes)),
             },
             None => out.errors.push(format!("{:?}: no arm covers {}", sel, v)),
